@@ -143,6 +143,7 @@ def run(ctx, rep):
     # number of owners - wherever it was broken - falsifies the sole-owner verdict these functions act on)
     balance.rule_bal(ctx, rep)
     balance.rule_unw(ctx, rep)
+    balance.rule_racy_assert(ctx, rep, strict=True)  # no assertion about a re-read count that a racing clone or drop can falsify: the operation would panic where it must succeed or decline
     from . import c12 as _c12
 
     _c12.union_dispatch(ctx, rep)  # ... including owners held by an ArcUnion: they are counted on the block of the Arc they were made from
@@ -184,6 +185,7 @@ def main(argv):
             ' Added later: R-FREE-TYPE as a premise ("the allocation is released": the sole owner gives the block back as the type and layout it was handed out as); the payload read is recognised by pointer normal form.'
             ' R-DESTROY as a premise; R-UNIQUE-VIEW; the gate family is every function returning a UniqueArc.'
             ' Round thirteen/fourteen: R-RACY-ASSERT inside R-UNW (seed: `debug_assert!(count > 1)` with the handle disarmed); c12.union_dispatch as a premise.'
+            ' Round fifteen: strict R-RACY-ASSERT.'
         ),
         rule_text="instances = (function, path-set | no-destructor | moves-data | decline)",
         trusted_base=["rustc nightly MIR (moves, elaborated drops) and trait resolution", "std model table (Result::map / unwrap_or_else call their callable at most once)"],
